@@ -37,11 +37,11 @@ def balance_sheet(snap, scale):
                 else:
                     ew = k["value"] / v
                 wsum += k["weight"]
-                if not near(k["weight"], ew, 1.0) and abs(k["weight"] - ew) * abs(v) > tol(scale, k["value"]):
+                if not near(k["weight"], ew, 1.0) and not (abs(k["weight"] - ew) * abs(v) <= tol(scale, k["value"])):
                     out.append(("child_weight", cname, ew, k["weight"]))
             if abs(v) >= tol(scale) and kids:
                 tot = wsum + n["capital"] / v
-                if abs(tot - 1.0) * abs(v) > 4 * tol(scale, v) and abs(tot - 1.0) > 1e-9:
+                if not (abs(tot - 1.0) * abs(v) <= 4 * tol(scale, v)) and not (abs(tot - 1.0) <= 1e-9):
                     out.append(("weights_sum", name, 1.0, tot))
         else:
             p = n["price"]
